@@ -97,9 +97,14 @@ def check_C17(report, tier, seed):
                    "plus engine walks (alias replay on the decoded client stream); distinct by the whole session script")
     gv.theorem_obligations(report, "GV/Props/C17.lean", "GV.Props.C17", audit=True)
     S.suite_alias(report, tier, seed, "C17")
-    walks = E.run_walks(seed, tier, "engine", 120, 4000)
-    E.correspondence(report, walks, "C17")
-    E.monitor(report, walks, "C17")
+    # half of the walks run with publishes sized around the server's maximum packet size, so that last-chance validation
+    # fails for packets whose alias resolution has already been made
+    walks = E.run_walks(seed, tier, "engine", 240, 6000, profile=lambda i: "mpstight" if i % 2 == 0 else "default")
+    corr_ok = E.correspondence(report, walks, "C17")
+    mon_ok = E.monitor(report, walks, "C17")
+    if not corr_ok and mon_ok:
+        more = E.run_walks(seed + 1, tier, "engine-c17-search", 1200, 4000, replay_model=False, profile=lambda i: "mpstight")
+        E.monitor(report, more, "C17", label="search")
 
 
 def check_C08(report, tier, seed):
